@@ -339,6 +339,33 @@ func raceScenarios() []raceScenario {
 		vsched.Go("closer", func() { t.w.Svr.Close() })
 		vsched.Quiesce()
 	}, true})
+	// (viii') the session store is shared by all connections: a clean-session connection is
+	// cut (its session is deleted) while other clients connect (CleanSession 0: look-up
+	// and insert; CleanSession 1: insert) and a persistent one disconnects
+	out = append(out, raceScenario{"clean session discarded || other clients connect", func() {
+		t := newTD()
+		c1 := t.connect("C1", 0, 65535, false)
+		old, err := t.w.Dial("OLD")
+		if err != nil {
+			return
+		}
+		old.Send(ConnectPacket(ConnectOpts{ClientID: "kept", Clean: false, KeepAlive: 600}))
+		t.w.Settle()
+		n1, err := t.w.Dial("N1")
+		if err != nil {
+			return
+		}
+		n2, err := t.w.Dial("N2")
+		if err != nil || vsched.Failed() {
+			return
+		}
+		vsched.Mark()
+		c1.rc.Cut()
+		n1.Conn.Write(refcodec.Encode(ConnectPacket(ConnectOpts{ClientID: "other", Clean: false, KeepAlive: 600})))
+		n2.Conn.Write(refcodec.Encode(ConnectPacket(ConnectOpts{ClientID: "third", Clean: true, KeepAlive: 600})))
+		old.Conn.Write(refcodec.Encode(&refcodec.Packet{Type: refcodec.DISCONNECT}))
+		vsched.Quiesce()
+	}, true})
 	// (viii) a connection is cut and its successor with the same client id connects at
 	// once (persistent session, so both share the session object for a moment)
 	out = append(out, raceScenario{"cut || successor resumes the session", func() {
